@@ -357,8 +357,10 @@ struct Value {
     }
 
     Value &operator=(const Char_T *str) {
+        StringT n_str{str}; // 'str' may be a part of this value
+
         reset();
-        string_ = StringT{str};
+        string_ = Memory::Move(n_str);
         setTypeToString();
 
         return *this;
@@ -565,20 +567,18 @@ struct Value {
 
     inline Value &operator[](const Char_T *key) {
         if (!isObject()) {
+            StringT n_key{key}; // 'key' may be a part of this value
+
             reset();
             setTypeToObject();
+            return (object_[Memory::Move(n_key)]);
         }
 
         return (object_[key]);
     }
 
     inline Value &operator[](const StringViewT &key) {
-        if (!isObject()) {
-            reset();
-            setTypeToObject();
-        }
-
-        return (object_.Get(key.First(), key.Length()));
+        return Get(key.First(), key.Length());
     }
 
     inline Value &operator[](StringT &&key) {
@@ -641,31 +641,30 @@ struct Value {
     // Will insert the key if it does not exist.
     inline Value &Get(const Char_T *key, SizeT length) {
         if (!isObject()) {
+            StringT n_key{key, length}; // 'key' may be a part of this value
+
             reset();
             setTypeToObject();
+            return (object_[Memory::Move(n_key)]);
         }
 
         return (object_.Get(key, length));
     }
 
     inline Value &Get(const StringViewT &key) {
-        if (!isObject()) {
-            reset();
-            setTypeToObject();
-        }
-
-        return (object_.Get(key.First(), key.Length()));
+        return Get(key.First(), key.Length());
     }
 
     inline void Insert(const StringViewT &key, Value &&val) {
-        Value tmp{Memory::Move(val)}; // 'val' may be a part of this value
+        Value   tmp{Memory::Move(val)};              // 'val' may be a part of this value
+        StringT n_key{key.First(), key.Length()};    // and so may 'key'
 
         if (!isObject()) {
             reset();
             setTypeToObject();
         }
 
-        object_.Insert(key.First(), key.Length(), Memory::Move(tmp));
+        object_.Insert(Memory::Move(n_key), Memory::Move(tmp));
     }
 
     inline bool operator<(const Value &val) const noexcept {
